@@ -114,3 +114,14 @@ func LocalZoneAddDate(sec int64) int64 { return time.Unix(sec, 0).AddDate(1, 0, 
 func LocalZoneInstantOK(sec int64, d time.Duration) int64 { return time.Unix(sec, 0).Add(d).Unix() }
 
 func LocalZoneUTCOK(sec int64) string { return time.Unix(sec, 0).UTC().AddDate(1, 0, 0).String() }
+
+// bootTime is initialised by every process for itself.
+var bootTime = time.Now()
+
+// HostGlobal reads a package variable initialised from the wall clock.
+func HostGlobal() int64 { return bootTime.Unix() }
+
+var fixedEpoch = time.Unix(1700000000, 0).UTC()
+
+// ConstGlobalOK reads a package variable with a fixed initialiser.
+func ConstGlobalOK() int64 { return fixedEpoch.Unix() }
